@@ -421,11 +421,12 @@ func (vc *VC) modularCall(fr *frame, callee *ssa.Function, key string, c *Contra
 		vc.oblige("call-pre", fmt.Sprintf("precondition of %s: %s", key, r.Name()), r.Props, pos, st.reach, t)
 	}
 	// results
+	// (an arbitrary result is created after the callee's allocations have been accounted for: it may
+	// point to a cell the callee allocated)
 	var res Val
-	if c.Extern || c.Trusted || c.Functional || c.Deterministic || c.Pure && callee != nil && callee.Blocks == nil {
+	isUF := c.Extern || c.Trusted || c.Functional || c.Deterministic || c.Pure && callee != nil && callee.Blocks == nil
+	if isUF {
 		res = vc.ufApply(st, key, args, rt, hint)
-	} else {
-		res = vc.freshResult(st, rt, hint)
 	}
 	// frame: cells that existed before the call change only at the declared locations. Cells the callee
 	// allocates lie at references >= the allocation counter at the call; nothing was known about
@@ -462,6 +463,9 @@ func (vc *VC) modularCall(fr *frame, callee *ssa.Function, key string, c *Contra
 			st.heap["$alloc"] = na
 		}
 	}
+	if !isUF {
+		res = vc.freshResult(st, rt, hint)
+	}
 	// ensures
 	post := &SpecEnv{vc: vc, vars: map[string]Val{}, st: st, old: pre.heap, contract: c, reach: st.reach, pkg: env.pkg}
 	for k, v := range env.vars {
@@ -471,10 +475,35 @@ func (vc *VC) modularCall(fr *frame, callee *ssa.Function, key string, c *Contra
 	bindResults(post.vars, res, rt, sig)
 	// the callee's ghost variables are universally quantified: its postconditions are instantiated
 	// at every combination of the caller's ghost terms of the same sort
-	for _, inst := range vc.ghostInstances(c, post) {
+	// extra instantiation terms requested by the caller's contract (`instantiate <int expr>`),
+	// evaluated in the caller's state at this call
+	extra := map[string][]string{}
+	if fr != nil && fr.depth == 0 && vc.contract != nil && len(c.Ghosts) > 0 {
+		for _, x := range vc.contract.Instantiate {
+			// in the state before the call and in the state after it (a postcondition may have to be
+			// used at a term that depends on what the call produced)
+			seen := map[string]bool{}
+			for _, at := range []*state{pre, st} {
+				cenv := vc.specEnv(fr, at, nil)
+				if v, err := cenv.eval(x); err == nil && v.T != "" && v.Typ != nil && !seen[v.T] {
+					seen[v.T] = true
+					srt := vc.S.sortOf(v.Typ)
+					extra[srt] = append(extra[srt], vc.define("inst", srt, v.T))
+				}
+			}
+		}
+	}
+	for _, inst := range vc.ghostInstances(c, post, extra) {
+		// ghosts are rigid: the same instance inside old(...)
+		ov := map[string]Val{}
+		for k, v := range env.vars {
+			ov[k] = v
+		}
 		for k, v := range inst {
 			post.vars[k] = v
+			ov[k] = v
 		}
+		post.oldVars = ov
 		for _, e := range c.Ensures {
 			t, err := post.evalBool(e.Expr)
 			if err != nil {
@@ -513,9 +542,8 @@ func bindResults(vars map[string]Val, res Val, rt types.Type, sig *types.Signatu
 	vars["result0"] = res
 }
 
-
 // ghostInstances enumerates bindings of the callee's ghost variables to caller ghost terms.
-func (vc *VC) ghostInstances(c *Contract, env *SpecEnv) []map[string]Val {
+func (vc *VC) ghostInstances(c *Contract, env *SpecEnv, extra map[string][]string) []map[string]Val {
 	insts := []map[string]Val{{}}
 	for _, g := range c.Ghosts {
 		t, err := env.resolveType(g.Type)
@@ -525,6 +553,9 @@ func (vc *VC) ghostInstances(c *Contract, env *SpecEnv) []map[string]Val {
 		srt := vc.S.sortOf(t)
 		var cands []Val
 		for _, term := range vc.ghostByKey[srt] {
+			cands = append(cands, vc.mkVal(term, t))
+		}
+		for _, term := range extra[srt] {
 			cands = append(cands, vc.mkVal(term, t))
 		}
 		if len(cands) == 0 {
